@@ -7461,6 +7461,7 @@ class TextualSelect(SelectBase, ExecutableReturnsRows, Generative):
         [
             ("element", InternalTraversal.dp_clauseelement),
             ("column_args", InternalTraversal.dp_clauseelement_list),
+            ("positional", InternalTraversal.dp_boolean),
         ]
         + SupportsCloneAnnotations._clone_annotations_traverse_internals
         + HasCTE._has_ctes_traverse_internals
